@@ -102,10 +102,41 @@ pub fn install_panic_hook() {
         } else {
             "<non-string panic>".to_string()
         };
-        let loc = info
+        let mut loc = info
             .location()
             .map(|l| format!("{}:{}", l.file(), l.line()))
             .unwrap_or_else(|| "?".into());
+        // A panic raised inside a dependency (bnum overflow, core slice index): attribute it to the
+        // innermost frame of the repository, which is what a known-finding signature must name.
+        let repo = std::env::var("YQV_REPO").unwrap_or_else(|_| "/repo".into());
+        if !loc.starts_with(&repo) && !loc.starts_with("src/") && !loc.contains("/harness/src/") {
+            let bt = std::backtrace::Backtrace::force_capture().to_string();
+            let needle = format!("at {}/src/", repo.trim_end_matches('/'));
+            let lines: Vec<&str> = bt.lines().collect();
+            for (i, line) in lines.iter().enumerate() {
+                // frame header: "  12: yamaquasi::module::function"
+                let Some((num, sym)) = line.trim().split_once(": ") else { continue };
+                if !num.chars().all(|c| c.is_ascii_digit()) {
+                    continue;
+                }
+                if !(sym.starts_with("yamaquasi::") || sym.starts_with("<yamaquasi::")) {
+                    continue;
+                }
+                let at = lines.get(i + 1).filter(|l| l.contains(&needle));
+                loc = match at {
+                    Some(l) => {
+                        let f = l.trim().trim_start_matches("at ").trim();
+                        let f = match f.rfind(':') {
+                            Some(j) if f[..j].contains(':') => &f[..j],
+                            _ => f,
+                        };
+                        f.to_string()
+                    }
+                    None => format!("fn:{}", sym.trim()),
+                };
+                break;
+            }
+        }
         LAST_PANIC.with(|p| *p.borrow_mut() = Some((msg.clone(), loc.clone())));
         if let Ok(mut g) = PANIC_LOCS.lock() {
             let m = g.get_or_insert_with(HashMap::new);
@@ -626,6 +657,23 @@ impl Ctx {
     /// needs to draw values outside `run_prop` (e.g. building fixtures).
     pub fn rng(&self, check: &str, shard: u64) -> TestRng {
         TestRng::from_seed(RngAlgorithm::ChaCha, &self.seed_bytes(check, shard, 1000))
+    }
+
+    /// Draw `count` values from a strategy with the seeded RNG of (seed, property, check, shard):
+    /// for checks whose cases are evaluated in batches by worker processes.
+    pub fn sample_strategy<S: Strategy>(&self, check: &str, shard: u64, strat: &S, count: usize) -> Vec<S::Value> {
+        use proptest::strategy::ValueTree;
+        let rng = TestRng::from_seed(RngAlgorithm::ChaCha, &self.seed_bytes(check, shard, 0));
+        let mut runner = TestRunner::new_with_rng(Config { failure_persistence: None, ..Config::default() }, rng);
+        let mut out = Vec::with_capacity(count);
+        let mut rejects = 0;
+        while out.len() < count && rejects < 10_000 {
+            match strat.new_tree(&mut runner) {
+                Ok(t) => out.push(t.current()),
+                Err(_) => rejects += 1,
+            }
+        }
+        out
     }
 
     /// Drive `f` over `cases` values of `strat` (proptest, seeded from VERIF_SEED, the
